@@ -90,6 +90,16 @@ pub fn subs() -> Vec<Box<dyn AnySub>> {
             },
             check: check_roundtrip,
         }),
+        // Requests edited after signing (method letter case, a port on Host, ...). They should be refused -- that is C01's
+        // business -- but IF an implementation is lenient enough to accept one, what it hands back must still be what was
+        // submitted, not what it compared against.
+        Box::new(Sub {
+            name: "roundtrip-of-edited-requests",
+            quick: 25_000,
+            thorough: 300_000,
+            strat: || (plan(PlanOpts { allow_fold: false, ..PlanOpts::default() }), lenient_edit()).prop_map(|(plan, edit)| Edited { plan, edit }).boxed(),
+            check: check_edited,
+        }),
         // (last: once the capturing logger is installed, trace-level arguments are evaluated for the rest of the process)
         Box::new(Sub {
             name: "roundtrip-with-trace-logging",
@@ -112,6 +122,115 @@ pub fn subs() -> Vec<Box<dyn AnySub>> {
 fn sorted(mut v: Vec<(Vec<u8>, Vec<u8>)>) -> Vec<(Vec<u8>, Vec<u8>)> {
     v.sort();
     v
+}
+
+#[derive(Clone, Debug, Serialize, Deserialize)]
+pub struct Edited {
+    pub plan: Plan,
+    /// (kind, selector)
+    pub edit: (u8, u16),
+}
+
+fn lenient_edit() -> BoxedStrategy<(u8, u16)> {
+    (0u8..10, any::<u16>()).boxed()
+}
+
+/// Edits that a "be liberal in what you accept" implementation might normalise away before comparing.
+pub fn check_edited(e: &Edited, cc: &mut CaseCtx) -> CheckResult {
+    let Ok(built) = e.plan.build() else { return Ok(()) };
+    let mut case = built.case.clone();
+    let (kind, x) = e.edit;
+    let host = case.req.headers.iter().position(|(n, _)| n.eq_ignore_ascii_case("host"));
+    let name: &'static str = match kind {
+        0 => {
+            case.req.method = case.req.method.to_ascii_lowercase();
+            "method-lower-case"
+        }
+        1 => {
+            let mut m: Vec<char> = case.req.method.chars().collect();
+            let i = crate::engine::pick_idx(x, m.len().max(1)).min(m.len().saturating_sub(1));
+            if let Some(c) = m.get_mut(i) {
+                *c = if c.is_ascii_uppercase() { c.to_ascii_lowercase() } else { c.to_ascii_uppercase() };
+            }
+            case.req.method = m.into_iter().collect();
+            "method-one-letter-case"
+        }
+        2 | 3 => {
+            let Some(h) = host else { return Ok(()) };
+            let port = [":443", ":80", ":443", ":8443"][(x % 4) as usize];
+            let v = latin1(&case.req.headers[h].1 .0);
+            case.req.headers[h].1 = B::from(if kind == 2 { format!("{}{}", v.trim_end_matches(port), port) } else { v.trim_end_matches(":443").trim_end_matches(":80").to_string() });
+            "host-port"
+        }
+        4 => {
+            let Some(h) = host else { return Ok(()) };
+            let v = latin1(&case.req.headers[h].1 .0);
+            case.req.headers[h].1 = B::from(if x % 2 == 0 { v.to_ascii_uppercase() } else { format!("{}.", v) });
+            "host-case-or-trailing-dot"
+        }
+        5 => {
+            // a signed header's value in other letter case / with a trailing semicolon
+            let idx: Vec<usize> = case.req.headers.iter().enumerate().filter(|(_, (n, _))| !n.eq_ignore_ascii_case("authorization") && !n.eq_ignore_ascii_case("host")).map(|(i, _)| i).collect();
+            if idx.is_empty() {
+                return Ok(());
+            }
+            let i = idx[crate::engine::pick_idx(x, idx.len())];
+            let v = latin1(&case.req.headers[i].1 .0);
+            case.req.headers[i].1 = B::from(if x % 2 == 0 { v.to_ascii_uppercase() } else { v.to_ascii_lowercase() });
+            "header-value-case"
+        }
+        6 => {
+            case.req.uri = case.req.uri.replacen("%2f", "%2F", 1).replacen("%7E", "~", 1).replacen("%20", "+", 1);
+            "target-respelled"
+        }
+        7 => {
+            if case.req.uri.contains('?') {
+                case.req.uri.push('&');
+            } else {
+                case.req.uri.push('?');
+            }
+            "target-trailing-separator"
+        }
+        8 => {
+            case.req.version = [10u8, 11, 2, 3][(x % 4) as usize];
+            "version"
+        }
+        _ => "unedited",
+    };
+    cc.class(name);
+    if case.req == built.case.req && kind != 9 {
+        cc.class("edit-without-effect");
+        return Ok(());
+    }
+    let o = exec::run(&case);
+    check_total(&o)?;
+    let exec::Res::Ok(ret) = &o.res else {
+        cc.class("refused");
+        return Ok(());
+    };
+    cc.class("accepted-after-edit");
+    cc.nontrivial(digest_of(&[&case.req.digest().to_le_bytes(), name.as_bytes()]));
+    let sent = &case.req;
+    let submitted_uri = exec::build_http(sent).map(|r| r.uri().to_string()).unwrap_or_else(|_| sent.uri.clone());
+    let folded = matches!(body_mode(sent, case.cfg.fold), BodyMode::FoldUtf8);
+    if ret.method != sent.method {
+        return Err(Failure::new("returned-method", format!("sent {} got back {} ({})", sent.method, ret.method, name)));
+    }
+    if ret.version != sent.version {
+        return Err(Failure::new("returned-version", format!("sent version {} got back {} ({})", sent.version, ret.version, name)));
+    }
+    let mut a: Vec<(String, &B)> = sent.headers.iter().map(|(n, v)| (n.to_ascii_lowercase(), v)).collect();
+    let mut b: Vec<(String, &B)> = ret.headers.iter().map(|(n, v)| (n.to_ascii_lowercase(), v)).collect();
+    a.sort();
+    b.sort();
+    if a != b {
+        let diff = a.iter().find(|x| !b.contains(x)).map(|x| format!("{}: {}", x.0, x.1.escaped())).unwrap_or_default();
+        return Err(Failure::new("returned-header-values", format!("the header lines handed back differ from those submitted (e.g. submitted {:?}) ({})", diff, name)));
+    }
+    if !folded && (ret.uri != submitted_uri || ret.body != sent.body) {
+        return Err(Failure::new("returned-uri", format!("sent {:?} got back {:?} ({})", submitted_uri, ret.uri, name)));
+    }
+    Ok(())
 }
 
 #[derive(Clone, Debug, Serialize, Deserialize)]
